@@ -13,29 +13,22 @@
 From Cocls Require Import Base BaseProofs AdaptersDefs AdaptersInv AdaptersProofs AdaptersOracle.
 Local Open Scope nat_scope.
 
-(* no schedule strands a registration or a resolver: when nothing can move, all threads ran to completion *)
-Theorem c18_no_lost_completion : forall c s,
-  valid c = true -> reachable c s -> terminal s -> th0 s = [] /\ th1 s = [] /\ th2 s = [].
-Proof. exact terminal_done. Qed.
-Print Assumptions c18_no_lost_completion.
+(* progress: no schedule strands a registration or a resolver (when nothing can move, all threads ran to completion);
+   no livelock (every schedule of every valid configuration reaches a terminal state within 90 steps, so the `terminal`
+   hypotheses below are met by every complete run); the executable runner used for the correspondence check only
+   visits reachable states *)
+Theorem c18_progress : forall c, valid c = true ->
+  (forall s, reachable c s -> terminal s -> th0 s = [] /\ th1 s = [] /\ th2 s = []) /\
+  (forall sched fuel, 90 <= fuel -> terminal (fst (run_sched c fuel (init c) sched []))) /\
+  (forall fuel s sched tr, reachable c s -> reachable c (fst (run_sched c fuel s sched tr))).
+Proof. exact progress_all. Qed.
+Print Assumptions c18_progress.
 
-(* no livelock: every schedule of every valid configuration reaches a terminal state within 90 steps, so the
-   `terminal` hypotheses below are met by every complete run *)
-Theorem c18_every_schedule_terminates : forall c sched fuel,
-  valid c = true -> 90 <= fuel -> terminal (fst (run_sched c fuel (init c) sched [])).
-Proof. exact every_schedule_terminates. Qed.
-Print Assumptions c18_every_schedule_terminates.
-
-(* the user callback is never entered twice, in any reachable state ... *)
-Theorem c18_fires_at_most_once : forall c s, valid c = true -> reachable c s -> ncb s <= 1.
-Proof. exact fires_at_most_once. Qed.
-Print Assumptions c18_fires_at_most_once.
-
-(* ... and exactly once when the scenario has run to completion: never zero, never twice
-   (discard and future_conv have no user callback: 0) *)
-Theorem c18_fires_once : forall c s,
-  valid c = true -> reachable c s -> terminal s -> ncb s = b2n (has_cb (c_ad c)).
-Proof. exact fires_exactly_once. Qed.
+(* the user callback is never entered twice, in any reachable state, and exactly once when the scenario has run to
+   completion: never zero, never twice (discard and future_conv have no user callback: 0) *)
+Theorem c18_fires_once : forall c s, valid c = true -> reachable c s ->
+  ncb s <= 1 /\ (terminal s -> ncb s = b2n (has_cb (c_ad c))).
+Proof. exact fires_once_all. Qed.
 Print Assumptions c18_fires_once.
 
 (* every callback invocation sees exactly what the source future holds = the outcome of the claim that succeeded,
@@ -75,32 +68,21 @@ Theorem c18_final_state : forall c s,
 Proof. exact terminal_final. Qed.
 Print Assumptions c18_final_state.
 
-(* converter: at the end the outer future holds conv(v) / the converter's exception / the source's exception
-   (await_canceled for a broken promise) / no value when the converter declined, resolved once, delivered once
-   (by the late resolver thread when the converter forwarded the promise); the converter ran once iff there was a value,
-   and the log is exactly [converter call; outer delivery] *)
-Theorem c18_conv_value_exception : forall c s,
-  valid c = true -> is_conv c = true -> reachable c s -> terminal s ->
-  oslot s = SReady /\ opayload s = conv_result c (wout c s) /\ nores s = 1 /\ ndeliv s = 1 /\
-  nconv s = b2n (isv (wout c s)) /\
-  exists t1 t2, log s = conv_log c (wout c s) t1 ++ [(t2, EODeliv (conv_result c (wout c s)))].
-Proof. exact conv_final. Qed.
-Print Assumptions c18_conv_value_exception.
-
-(* converter, safety half in every reachable state: the outer future is never resolved twice, the converter never runs
-   twice nor on an exception, nothing is delivered before the resolution, a ready outer future holds the expected result *)
-Theorem c18_conv_safe : forall c s,
-  valid c = true -> reachable c s ->
-  nores s <= 1 /\ nconv s <= b2n (isv (payload s)) /\ ndeliv s <= nores s /\
-  (oslot s = SReady -> opayload s = conv_result c (payload s)).
-Proof. exact conv_safe. Qed.
-Print Assumptions c18_conv_safe.
-
-(* the executable runner used for the correspondence check only visits reachable states *)
-Theorem c18_run_reachable : forall c fuel s sched tr,
-  reachable c s -> reachable c (fst (run_sched c fuel s sched tr)).
-Proof. exact run_sched_reachable. Qed.
-Print Assumptions c18_run_reachable.
+(* converter.  Safety, in every reachable state: the outer future is never resolved twice, the converter never runs twice
+   nor on an exception, nothing is delivered before the resolution, a ready outer future holds the expected result.
+   At the end: the outer future ALWAYS completes; it holds conv(v) / the converter's exception / the source's exception
+   (await_canceled for a broken promise) / no value when the converter declined; resolved once, delivered once (by the late
+   resolver thread when the converter forwarded the promise); the converter ran once iff there was a value, and the log is
+   exactly [converter call; outer delivery] *)
+Theorem c18_conv : forall c s, valid c = true -> reachable c s ->
+  (nores s <= 1 /\ nconv s <= b2n (isv (payload s)) /\ ndeliv s <= nores s /\
+   (oslot s = SReady -> opayload s = conv_result c (payload s))) /\
+  (is_conv c = true -> terminal s ->
+   oslot s = SReady /\ opayload s = conv_result c (wout c s) /\ nores s = 1 /\ ndeliv s = 1 /\
+   nconv s = b2n (isv (wout c s)) /\
+   exists t1 t2, log s = conv_log c (wout c s) t1 ++ [(t2, EODeliv (conv_result c (wout c s)))]).
+Proof. exact conv_all. Qed.
+Print Assumptions c18_conv.
 
 (* the decidable form of the property that is run on the IMPLEMENTATION's traces accepts every trace of the model, for
    every op list (valid or malformed), both engines and both value-type variants: the oracle demands nothing that the
